@@ -106,6 +106,23 @@ CLAIMS = {
              "list derived from the folded segments; R13.7 tombstones are judged on the folded map only. Does not decide state equality.",
         technique="MIR call/provenance analysis across closure captures, wall-clock vs logical-time provenance typing, path search from failure edges",
         ref="DESIGN.md §3 C13"),
+    "C11": dict(
+        text="Decides the completeness clauses of C11: R11.1 no scalar high-water filter on the multi-clock WAL stream "
+             "(recover_entries_after(0)); recover_entries_after examines every entry and filters per entry with >=; R11.2 the segment "
+             "list is manifest.segments -> [filter id > checkpoint id, only with a checkpoint] -> Vec, sorted in place - any keyed or "
+             "truncating step is reported; load failures and decode errors propagate; validate precedes deltas; R11.3 the plain-insert "
+             "recovery message has a single caller and deltas go through the merging ingest; R11.5 WAL deltas are appended on every "
+             "path. Does not decide equality with the ground-truth merge.",
+        technique="value-provenance chain analysis over iterator adaptors (incl. helpers), error-propagation analysis on awaited results, who-may-call",
+        ref="DESIGN.md §3 C11"),
+    "C06": dict(
+        text="Decides the glue clauses of C06 between executor and replication state: R06.1 recorded deltas must come from the "
+             "executor's post-state (3 known findings: SET x2, HSET); R06.2 re-materialisation replies must be inspected (8 known "
+             "findings); R06.3 remote ingest = clock update + merge when a local value exists; R06.5 after the merge, executor updates "
+             "are decided from the merged value only (no stale-delta shortcut); R06.6 stamps are never ordered by .time alone. Does not "
+             "decide convergence over delivery schedules.",
+        technique="MIR value provenance (post-state vs command operand), unused-result detection, branch-condition root analysis, comparison-shape scan",
+        ref="DESIGN.md §3 C06"),
 }
 
 PENDING_REASON = "check not built yet (build in progress; DESIGN.md §3 lists the planned structural clauses)"
